@@ -12,8 +12,14 @@ func init() {
 			"deferred (an accepted maxint queue length must survive the next AddPipe/Send), inherit (socket options read back from dialers/listeners/contexts created afterwards), " +
 			"resize (50 queue-length changes with traffic flowing / receive queue full: no Detached, exchange succeeds; fixed sequence plus seed-chosen sequences, socket listening or dialing), " +
 			"stall (30 changes against a vt peer with the pipe receiver known parked on a full queue / the peer known stalled in Send: transport pipe not closed, traffic afterwards gets through), " +
-			"unsup (ErrProtoOp operations before/after connecting, no side effect), device (Device on nil/cooked/mismatched sockets, no forwarder left, sockets still work). " +
-			"quick: effects on inproc and vt; thorough: effects on all 6 transports, more queue lengths and more seed-chosen sequences. " +
+			"unsup (ErrProtoOp operations before/after connecting, no side effect), device (Device on nil/cooked/mismatched sockets, no forwarder left, sockets still work), " +
+			"tlscfg (tls+tcp and wss: a TLS-CONFIG whose server side supplies its certificate by Certificates / GetCertificate only / both, given at creation, by SetOption, by SetOption replacing an earlier value, or by ListenOptions, " +
+			"against a client config using RootCAs or InsecureSkipVerify+VerifyConnection given by the same four routes; protocol pair, client shape and client route seed-chosen: Get returns the accepted pointer, Listen succeeds, Dial completes the handshake, " +
+			"the accepted configs' callbacks were called, the client saw the certificate of the config in effect and not of the replaced one, messages flow; GetConfigForClient-only is recorded without verdict), " +
+			"subs (seed-drawn SUBSCRIBE/UNSUBSCRIBE scripts on the SUB socket and/or 1-2 of its contexts over a universe of nested prefixes (empty prefix and self-overlapping words included) plus unrelated topics, values as []byte (scribbled afterwards) or string, " +
+			"ending with the removal of every established subscription one by one; model = a plain set per receiver: SUBSCRIBE accepted, UNSUBSCRIBE of a member accepted, of a non-member ErrBadValue; after every call a probe batch + sentinel over the one connection (vt peer or a real PUB): " +
+			"every receiver delivers exactly the probes its own set matches, in order). " +
+			"quick: effects on inproc and vt, 26 tlscfg and 40 subs cases; thorough: effects on all 6 transports, more queue lengths and more seed-chosen sequences, 122 tlscfg and 240 subs cases (a third over real transports). " +
 			"non-trivial = a grid ran to completion on an object / the effect was really exercised (option accepted and traffic observed); " +
 			"distinct = hash of (object label, full outcome table) for grids, of (kind, protocol, option, transport, sequence, observed outcome) for effects",
 		Assume: commonAssume})
